@@ -792,9 +792,14 @@ class PipeOps(FullOps):
             r = self.interp.call_value(f.func, new_args, kwargs, node, env)
         finally:
             self.in_vmap -= 1
-        if isinstance(r, TV):
-            return r.but(axes=("R",) + tuple(r.axes), layout=tuple((l[0] + 1, l[1], l[2]) for l in r.layout))
-        return r
+        def batched(x):
+            if isinstance(x, TV):
+                return x.but(axes=("R",) + tuple(x.axes), layout=tuple((l[0] + 1, l[1], l[2]) for l in x.layout))
+            if isinstance(x, ListV):  # a tuple / list of outputs: each gets the batch axis
+                return replace(x, items=tuple(batched(y) for y in x.items)) if x.items is not None else replace(x, elem=batched(x.elem), head=None, tail=(), tail_elem=None)
+            return x
+
+        return batched(r)
 
     # ------------------------------------------------------------------ misc
     def call_builtin(self, fn, args, kwargs, node, env):
@@ -809,13 +814,15 @@ class PipeOps(FullOps):
             return NONE
         if fn == "zip":
             strict = isinstance(kwargs.get("strict"), Const) and kwargs["strict"].v is True
-            args = [self.consume(a, node, full=strict) for a in args]
-            lists = [self.to_list(a, "list", node) for a in args]
+            args = [a if isinstance(a, tuple) else self.consume(a, node, full=strict) for a in args]
+            lists = [self.to_list(a, "list", node) for a in args if not isinstance(a, tuple)]
             self.pev("zip", node, orders=[(repr(l.order) if l.items is None or l.order is not None else "(('literal-sequence',), 'same')") if isinstance(l, ListV) else "?" for l in lists],
                      in_loop=bool(self.loop_orders))
         return super().call_builtin(fn, args, kwargs, node, env)
 
     def zip(self, args, node):
+        if len(args) == 1 and isinstance(args[0], tuple):
+            return super().zip(args, node)  # zip(*rows)
         lists = [self.to_list(a, "list", node) for a in args]
         if all(isinstance(l, ListV) and l.items is None and l.order is not None for l in lists) and lists:
             real = [l for l in lists if l.order[1] != "const"] or lists
